@@ -334,7 +334,7 @@ func (e *BinaryOpExpr) execStringIn(kv KVPair, ctx *ExecuteCtx) (any, error) {
 			}
 		}
 		return false, nil
-	case *FunctionCallExpr:
+	case *FunctionCallExpr, *FieldReferenceExpr:
 		if rlist.ReturnType() != TLIST {
 			return false, NewExecuteError(rlist.GetPos(), "in operator right expression has wrong type, not list 1")
 		}
@@ -343,6 +343,10 @@ func (e *BinaryOpExpr) execStringIn(kv KVPair, ctx *ExecuteCtx) (any, error) {
 			return false, err
 		}
 		vals, ok := fret.([]any)
+		if !ok {
+			// Typed lists ([]string, []int64, ...) as returned by split and the list functions
+			vals, ok = unpackArray(fret)
+		}
 		if !ok {
 			return false, NewExecuteError(rlist.GetPos(), "in operator right expression has wrong type, not list 2")
 		}
@@ -384,7 +388,7 @@ func (e *BinaryOpExpr) execNumberIn(kv KVPair, ctx *ExecuteCtx) (any, error) {
 			}
 		}
 		return false, nil
-	case *FunctionCallExpr:
+	case *FunctionCallExpr, *FieldReferenceExpr:
 		if rlist.ReturnType() != TLIST {
 			return false, NewExecuteError(rlist.GetPos(), "in operator right expression has wrong type, not list")
 		}
@@ -393,6 +397,10 @@ func (e *BinaryOpExpr) execNumberIn(kv KVPair, ctx *ExecuteCtx) (any, error) {
 			return false, err
 		}
 		vals, ok := fret.([]any)
+		if !ok {
+			// Typed lists ([]string, []int64, ...) as returned by split and the list functions
+			vals, ok = unpackArray(fret)
+		}
 		if !ok {
 			return false, NewExecuteError(rlist.GetPos(), "in operator right expression has wrong type, not list")
 		}
